@@ -40,7 +40,7 @@ def tla_set(xs):
 
 def has_woken_bit():
     """the registration of the tree under test has the `_woken` bit (repair of the copy-of-woken defect): then the
-    replayers project it and every configuration compares it; the dedicated copy-of-woken configurations always do"""
+    replayers project it and every configuration compares it (a tree without the bit is told apart by what a copy does)"""
     try:
         return "_woken" in open(os.path.join(vlib.REPO, "src/cocls/publisher.h")).read()
     except OSError:
@@ -340,7 +340,7 @@ def conc_replay(ctx, tag="conc", max_paths_quick=1200, max_paths_thorough=9000):
         window = name == "w"
         with fast_cover():
             graph_replay(ctx, "Publisher", "PublisherConc", "PublisherConc.cfg", "%s_%s" % (tag, name), rpc,
-                         (lambda st, window=window: conc_proj(st, True if window else None)),
+                         conc_proj,
                          header_fn=hdr, must_take=m, constants=c, max_paths=max_paths_quick if ctx.quick else max_paths_thorough,
                          tlc_kw={"workers": 4}, replay_timeout=180 if ctx.quick else 1800,
                          key_fn=(lambda sid, line, txt: "publisher_copy_of_woken_subscriber") if window else None)
@@ -396,7 +396,7 @@ def run(ctx):
     c = consts(3, 1, U, ["all"], styles='{"split"}' if ctx.quick else '{"split", "coro"}', pub=1 if ctx.quick else 2, batch=1,
                join=3, kick=0 if ctx.quick else 1, at=[], copybusy=True, copywoken=True, founders=[1, 2])
     replay_config(ctx, rp, c, "copywoken", must=["PlanCopy", "WakeCopy", "SubscribeCopy", "Wake", "PushCS", "Close"],
-                  max_paths=2000 if ctx.quick else 30000, cfg="Publisher_copywoken.cfg", woken=True,
+                  max_paths=2000 if ctx.quick else 30000, cfg="Publisher_copywoken.cfg",
                   key_fn=lambda sid, line, txt: "publisher_copy_of_woken_subscriber")
     # interleavings of subscriber critical sections with the publisher's wake-up loop (design level)
     c = consts(2, 1, 2, ["all"] if ctx.quick else ["all", "recent"], styles='{"split"}', pub=2 if ctx.quick else 3, batch=2, join=2,
